@@ -13,6 +13,9 @@ import Proofs.TracksV2Lens
 import Proofs.TracksV2Main
 import Proofs.TracksV2Db
 import Proofs.TracksV2Hist
+import Proofs.TracksV2Get
+import Proofs.TracksV2Wf
+import Proofs.TracksV2Proj
 
 namespace EngineModel.Properties.C06V2
 open EngineModel EngineModel.TracksV2 EngineModel.Prim
@@ -232,6 +235,144 @@ theorem v2_C06_dbok_create (ops : FOps) (s : Schema) (db : Db) (hok : DbOk ops d
   | throw e => exact ⟨hok, hf⟩
   | ub u => exact ⟨hok, hf⟩
 
+
+/-! ### get ∘ set, frame and "value last set" on the Model's own setters and getters
+
+The statements above relate the Model to the lens Spec and state the lens laws
+on the Spec; here they are composed into statements about `applySetter` and the
+getters `get…` of the Model themselves (`getField` = the getter of each of the
+25 fields). -/
+
+/-- **get ∘ set and frame, on the Model.**  On a stored row with a readable
+snapshot, after a setter call the Model accepts: the getter of the named field
+answers the value set under C01's normalisation (`Spec.newValue`), and the
+getter of every other field (all 24) answers what it answered before. -/
+theorem v2_C06_model_get_set_frame (ops : FOps) (σ : Setter) (r r' : Row) (y : Snap)
+    (hr : readSnap ops r = .ok y) (henc : RowEnc r) (hs : applySetter ops σ r = .ok r') :
+    (∃ w, Spec.newValue σ y = some w ∧ getField ops r' (Spec.fieldOfSetter σ) = .ok w) ∧
+    ∀ g, g ≠ Spec.fieldOfSetter σ → getField ops r' g = getField ops r g := by
+  obtain ⟨y', h1, h2, _⟩ := spec_of_model_ok ops σ r r' y hr henc hs
+  refine ⟨⟨_, (v2_C06_get_set σ y y' h1).symm, getField_snapshot ops r' y' h2 _⟩, ?_⟩
+  intro g hg
+  rw [getField_snapshot ops r' y' h2, getField_snapshot ops r y hr, v2_C06_frame σ y y' h1 g hg]
+
+/-- **Per-slot frame.**  `set_hot_cue_at(i, v)`: `hot_cue_at(i)` answers the
+value set (offset −1 = empty slot), `hot_cue_at(j)` for every other index `j`
+(in or out of range) and every `loop_at(j)` answer what they answered before;
+symmetrically for `set_loop_at`. -/
+theorem v2_C06_model_slot_frame (ops : FOps) (i : UInt32) (r r' : Row) :
+    (∀ v, applySetter ops (.hotCueAt i v) r = .ok r' →
+      getHotCueAt r' i = .ok (Spec.normCue v) ∧ (∀ j : UInt32, j.toNat ≠ i.toNat → getHotCueAt r' j = getHotCueAt r j) ∧
+      ∀ j, getLoopAt r' j = getLoopAt r j) ∧
+    (∀ v, applySetter ops (.loopAt i v) r = .ok r' →
+      getLoopAt r' i = .ok v ∧ (∀ j : UInt32, j.toNat ≠ i.toNat → getLoopAt r' j = getLoopAt r j) ∧
+      ∀ j, getHotCueAt r' j = getHotCueAt r j) := by
+  constructor
+  · intro v h
+    obtain ⟨hk, hs, rfl⟩ := hotCueAt_row h
+    refine ⟨?_, fun j hj => getHotCueAt_set_other r i.toNat _ j hj, fun j => rfl⟩
+    unfold getHotCueAt
+    simp only [List.length_set, hs, Res.bind, List.getElem?_set_self hk, read_write_hotCue]
+  · intro v h
+    obtain ⟨hk, hs, rfl⟩ := loopAt_row h
+    refine ⟨?_, fun j hj => getLoopAt_set_other r i.toNat _ j hj, fun j => rfl⟩
+    unfold getLoopAt
+    simp only [List.length_set, hs, Res.bind, List.getElem?_set_self hk, read_write_loop]
+
+/-- **The derived getters** `filename()` / `file_extension()` change only with
+`set_relative_path`, and then are those of the new path (the one exception the
+property makes to the frame law). -/
+theorem v2_C06_model_derived (ops : FOps) (σ : Setter) (r r' : Row) (h : applySetter ops σ r = .ok r') :
+    (∀ p, σ = .relativePath p →
+      getFilename' r' = getFilename p ∧ getFileExtension' r' = (getFileExtension p).getD []) ∧
+    (σ.newPath = none → getFilename' r' = getFilename' r ∧ getFileExtension' r' = getFileExtension' r) := by
+  rcases applySetter_cols ops σ r r' h with ⟨p, rfl, h1, _, _⟩ | ⟨hn, h1, _, _⟩
+  · refine ⟨?_, fun hh => by cases hh⟩
+    intro p' hp
+    cases hp
+    unfold getFilename' getFileExtension'
+    rw [h1]
+    exact ⟨rfl, rfl⟩
+  · refine ⟨?_, fun _ => by unfold getFilename' getFileExtension'; rw [h1]; exact ⟨rfl, rfl⟩⟩
+    intro p hp
+    subst hp
+    cases hn
+
+/-- **Eight slots.**  Rows written by `create_track` / `update` have eight cue
+and eight loop slots, and every setter keeps that. -/
+theorem v2_C06_eight_slots (ops : FOps) :
+    (∀ s x r, writeStore ops s x = .ok r → r.cues.1.cues.length = 8 ∧ r.loops.1.length = 8) ∧
+    (∀ σ r r', applySetter ops σ r = .ok r' → r.cues.1.cues.length = 8 ∧ r.loops.1.length = 8 →
+      r'.cues.1.cues.length = 8 ∧ r'.loops.1.length = 8) :=
+  ⟨fun s x r h => slots8_written ops s x r h, fun σ r r' h h8 => slots8_set ops σ r r' h h8⟩
+
+/-- **After any history every getter of every track equals the field of its
+snapshot** (and `snapshot()` succeeds). -/
+theorem v2_C06_history_getters (ops : FOps) (db : Db) (hok : DbOk ops db) (h : List (Nat × Setter)) (id : Nat)
+    (r : Row) (hget : (db.run ops h).get id = some r) :
+    (db.run ops h).snapshot ops id = .ok (snapOf ops r) ∧
+    ∀ f, getField ops r f = .ok (Spec.fieldOf (snapOf ops r) f) := by
+  have hok' := (v2_C06_history ops db hok h).1
+  have hm := get_mem _ id r hget
+  have hread := (hok'.1 _ hm).2
+  exact ⟨by simp only [Db.snapshot, hget]; exact hread, getField_snapshot ops r _ hread⟩
+
+/-- **Each getter returns the value last set for its field.**  In a history
+`h₁ ++ [set f v on track id] ++ h₂` where that call is acceptable (the lens Spec
+accepts the value for the snapshot `y` the track has at that moment, and the
+path is not another track's) and no later call on the same track names the same
+field, the getter of `f` on track `id` at the end answers `v` under C01's
+normalisation (`Spec.newValue σ y`) — whatever else happened in `h₁`, `h₂`, on
+this and on other tracks, accepted or rejected. -/
+theorem v2_C06_value_last_set (ops : FOps) (db : Db) (hok : DbOk ops db) (h₁ h₂ : List (Nat × Setter)) (id : Nat)
+    (σ : Setter) (r₁ : Row) (y' : Snap)
+    (hget : (db.run ops h₁).get id = some r₁)
+    (hacc : Spec.applySetter σ (snapOf ops r₁) = some y')
+    (hnc : Spec.clashObs (obs ops (db.run ops h₁)) id σ = false)
+    (hlater : ∀ c ∈ h₂, c.1 = id → Spec.fieldOfSetter c.2 ≠ Spec.fieldOfSetter σ) :
+    ∃ r w, (db.run ops (h₁ ++ (id, σ) :: h₂)).get id = some r ∧
+      Spec.newValue σ (snapOf ops r₁) = some w ∧ getField ops r (Spec.fieldOfSetter σ) = .ok w := by
+  obtain ⟨hok1, hobs1⟩ := v2_C06_history ops db hok h₁
+  have hrun : db.run ops (h₁ ++ (id, σ) :: h₂) = ((db.run ops h₁).run ops [(id, σ)]).run ops h₂ := by
+    rw [show h₁ ++ (id, σ) :: h₂ = h₁ ++ ([(id, σ)] ++ h₂) from rfl, Db.run_append, Db.run_append]
+  obtain ⟨hokD, hobsD⟩ := v2_C06_history ops (db.run ops h₁) hok1 ((id, σ) :: h₂)
+  have hrun' : (db.run ops h₁).run ops ((id, σ) :: h₂) = db.run ops (h₁ ++ (id, σ) :: h₂) := by
+    rw [Db.run_append]
+  rw [hrun'] at hokD hobsD
+  -- the observations at the end, seen from track `id`
+  have hl1 : Spec.lookup (obs ops (db.run ops h₁)) id = some (snapOf ops r₁) := by
+    rw [lookup_obs, hget]; rfl
+  have hstep : Spec.lookup (Spec.stepObs (obs ops (db.run ops h₁)) id σ) id = some y' := by
+    rw [Spec.lookup_stepObs, hl1]
+    simp [hnc, hacc]
+  have hkept := Spec.field_kept_run (Spec.stepObs (obs ops (db.run ops h₁)) id σ) id (Spec.fieldOfSetter σ) h₂ hlater
+  rw [hstep] at hkept
+  have hfin : Spec.runObs (obs ops (db.run ops h₁)) ((id, σ) :: h₂) =
+      Spec.runObs (Spec.stepObs (obs ops (db.run ops h₁)) id σ) h₂ := rfl
+  rw [← hfin, ← hobsD, lookup_obs] at hkept
+  cases hg : (db.run ops (h₁ ++ (id, σ) :: h₂)).get id with
+  | none => rw [hg] at hkept; cases hkept
+  | some r =>
+    rw [hg] at hkept
+    simp only [Option.map_some, Option.some.injEq] at hkept
+    have hm := get_mem _ id r hg
+    have hread := (hokD.1 _ hm).2
+    refine ⟨r, _, rfl, (v2_C06_get_set σ _ y' hacc).symm, ?_⟩
+    rw [getField_snapshot ops r _ hread, hkept]
+
+
+/-- **The setters of this file are the statement sequences of the C++.**  `Db.set`
+(whole effect or nothing) is not an assumption: on every table satisfying the
+structural invariant of the statement-level model (ids and paths keys, origin
+columns set — every reachable one, C11V2Tracks), the SELECT / UPDATE statements
+of `set_*` in the order and transaction scope of `track_impl.cpp`, with
+`UNIQUE (path)` able to fail any of them, project exactly onto `Db.set`: same
+answer, same rows.  Hence every theorem above holds of the statement-level
+model, and a setter that throws has written nothing. -/
+theorem v2_C06_statement_level (ops : FOps) (id : Nat) (σ : Setter) (db : TDb) (hs : SInv db) :
+    (callSet ops id σ db).1.toDb = (db.toDb.set ops id σ).1 ∧ (callSet ops id σ db).2 = (db.toDb.set ops id σ).2 :=
+  callSet_toDb ops id σ hs
+
 /-! ### non-vacuity -/
 
 def exOps : FOps := ⟨fun _ => 0, fun _ => 0, fun _ _ => 0⟩
@@ -255,6 +396,15 @@ example : (exDb.set exOps 1 (.hotCueAt 8 none)).2 = .throw .out_of_range := by d
 example : ((exDb.run exOps exHist).snapshot exOps 1).toOption.map (·.duration) = some (some 61000) := by
   decide +kernel
 example : ((exDb.run exOps exHist).snapshot exOps 1).toOption.map (·.waveform.length) = some 1024 := by
+  decide +kernel
+
+/-- the hypotheses of `v2_C06_value_last_set` are satisfiable: track 1's rating is set to 250 (→ 100) in the
+middle of a history with a later title change on track 1 and rating changes on track 2 -/
+example : ∃ r, (exDb.run exOps ([(2, .rating (some 3))] ++ (1, .rating (some 250)) :: [(1, .title none), (2, .rating none)])).get 1
+    = some r ∧ getField exOps r .rating = .ok (.int (some 100)) := ⟨_, rfl, by decide +kernel⟩
+/-- … and of the per-slot frame: slot 3 of a created track accepts a cue, slot 8 does not exist -/
+example : ((exDb.get 1).bind fun r =>
+    (applySetter exOps (.hotCueAt 3 (some ⟨[65], 0x40f5888000000000, ⟨255, 1, 2, 3⟩⟩)) r).toOption).isSome = true := by
   decide +kernel
 
 end EngineModel.Properties.C06V2
